@@ -11,16 +11,25 @@ Record Inv2 (s : nstate) : Prop := {
   i_rc : forall r ts n hs, slot (PreparationPayloads s) (PrimaryIndex s) = Some r -> p_body r = B0 (BPrepareRequest ts n hs) ->
          ts = Timestamp s /\ n = Nonce s /\ hs = TransactionHashes s;
   i_who : forall r, slot (PreparationPayloads s) (PrimaryIndex s) = Some r -> p_view r = ViewNumber s;
-  i_pf : 0 < N s -> PrimaryIndex s = primary_of s (ViewNumber s) }.
+  i_pf : 0 < N s -> PrimaryIndex s = primary_of s (ViewNumber s);
+  i_p1 : forall pb, preheader s = Some pb -> pb_ts pb = Timestamp s /\ pb_nonce pb = Nonce s /\ pb_hashes pb = TransactionHashes s /\
+                                             pb_index pb = BlockIndex s /\ pb_prev pb = PrevHash s;
+  i_p2 : forall pb, preheader s = Some pb -> exists r, slot (PreparationPayloads s) (PrimaryIndex s) = Some r }.
 
 Definition HdrIsProposal (s : nstate) (h : hash) : Prop :=
   exists b r, header s = Some b /\ h = block_hash b /\ slot (PreparationPayloads s) (PrimaryIndex s) = Some r /\
               p_body r = B0 (BPrepareRequest (b_ts b) (b_nonce b) (b_hashes b)) /\
               p_view r = ViewNumber s /\ b_index b = BlockIndex s /\ b_prev b = PrevHash s.
+Definition PreHdrIsProposal (s : nstate) (h : hash) : Prop :=
+  exists pb r, preheader s = Some pb /\ h = preblock_hash pb /\ slot (PreparationPayloads s) (PrimaryIndex s) = Some r /\
+               p_body r = B0 (BPrepareRequest (pb_ts pb) (pb_nonce pb) (pb_hashes pb)) /\
+               p_view r = ViewNumber s /\ pb_index pb = BlockIndex s /\ pb_prev pb = PrevHash s.
 Definition G2 (s : nstate) (c : call) : Prop :=
   match c with
   | CProcessBlock h _ => HdrIsProposal s h
   | CSign h => HdrIsProposal s h /\ slot (CommitPayloads s) (MyIndex s) = None
+  | CProcessPreBlock h _ => PreHdrIsProposal s h
+  | CSetData h => PreHdrIsProposal s h /\ slot (PreCommitPayloads s) (MyIndex s) = None
   | _ => True end.
 
 (* the invariant with the node's position and the view's primary frozen (every function outside the open recursion keeps them),
@@ -38,22 +47,23 @@ Notation k5 x := (forall mi pi vn ts n hs, kp (Inv5 mi pi vn ts n hs) G2 x).
 Definition Same2 (a b : nstate) : Prop :=
   header b = header a /\ Timestamp b = Timestamp a /\ Nonce b = Nonce a /\ TransactionHashes b = TransactionHashes a /\
   PreparationPayloads b = PreparationPayloads a /\ PrimaryIndex b = PrimaryIndex a /\ Validators b = Validators a /\
-  BlockIndex b = BlockIndex a /\ ViewNumber b = ViewNumber a /\ PrevHash b = PrevHash a.
+  BlockIndex b = BlockIndex a /\ ViewNumber b = ViewNumber a /\ PrevHash b = PrevHash a /\ preheader b = preheader a.
 Lemma inv2_same a b : Same2 a b -> Inv2 a -> Inv2 b.
 Proof.
-  intros (E1 & E2 & E3 & E4 & E5 & E6 & E7 & E8 & E9 & E10) [J1 J0 J2 J3 J4 J6 J5].
-  constructor; unfold N, primary_of, N in *; rewrite ?E1, ?E2, ?E3, ?E4, ?E5, ?E6, ?E7, ?E8, ?E9, ?E10; assumption.
+  intros (E1 & E2 & E3 & E4 & E5 & E6 & E7 & E8 & E9 & E10 & E11) [J1 J0 J2 J3 J4 J6 J5 J7 J8].
+  constructor; unfold N, primary_of, N in *; rewrite ?E1, ?E2, ?E3, ?E4, ?E5, ?E6, ?E7, ?E8, ?E9, ?E10, ?E11; assumption.
 Qed.
 (* while the primary's slot is empty there is no header, and the proposal fields are free *)
 Definition Same4 (a b : nstate) : Prop :=
   header b = header a /\ PreparationPayloads b = PreparationPayloads a /\ PrimaryIndex b = PrimaryIndex a /\ Validators b = Validators a /\
-  BlockIndex b = BlockIndex a /\ ViewNumber b = ViewNumber a /\ PrevHash b = PrevHash a.
+  BlockIndex b = BlockIndex a /\ ViewNumber b = ViewNumber a /\ PrevHash b = PrevHash a /\ preheader b = preheader a.
 Lemma inv2_none a b : Inv2 a -> slot (PreparationPayloads a) (PrimaryIndex a) = None -> Same4 a b -> Inv2 b.
 Proof.
-  intros [J1 J0 J2 J3 J4 J6 J5] Hn (E1 & E5 & E6 & E7 & E8 & E9 & E10).
-  constructor; unfold N, primary_of, N in *; rewrite ?E1, ?E5, ?E6, ?E7, ?E8, ?E9, ?E10; try assumption.
+  intros [J1 J0 J2 J3 J4 J6 J5 J7 J8] Hn (E1 & E5 & E6 & E7 & E8 & E9 & E10 & E11).
+  constructor; unfold N, primary_of, N in *; rewrite ?E1, ?E5, ?E6, ?E7, ?E8, ?E9, ?E10, ?E11; try assumption.
   - intros b0 Hb. destruct (J2 b0 Hb) as [r Hr]. rewrite Hn in Hr. discriminate Hr.
   - rewrite Hn. discriminate.
+  - intros b0 Hb. destruct (J8 b0 Hb) as [r Hr]. rewrite Hn in Hr. discriminate Hr.
 Qed.
 
 Ltac leafG2 :=
@@ -111,12 +121,9 @@ Lemma h_changeTimer d : k2 (changeTimer d). Proof. unfold changeTimer. k2_go. Qe
 Hint Resolve h_NotAccepting h_subscribe h_unsubscribe h_StopTxFlow h_changeTimer : kpdb.
 Lemma h_getTimestamp : k2 (getTimestamp cfg). Proof. unfold getTimestamp. k2_go. Qed.
 Hint Resolve h_getTimestamp : kpdb.
-Lemma h_MakePreHeader : k2 MakePreHeader. Proof. unfold MakePreHeader. k2_go. Qed.
-Hint Resolve h_MakePreHeader : kpdb.
-Lemma h_CreatePreBlock : k2 CreatePreBlock. Proof. unfold CreatePreBlock. k2_go. Qed.
 Lemma h_broadcast m : k2 (broadcast m). Proof. unfold broadcast. k2_go. Qed.
 Lemma h_rtt t : k2 (rtt_addTime t). Proof. unfold rtt_addTime. k2_go. Qed.
-Hint Resolve h_CreatePreBlock h_broadcast h_rtt : kpdb.
+Hint Resolve h_broadcast h_rtt : kpdb.
 Lemma h_makeRecoveryMessage : k2 makeRecoveryMessage. Proof. unfold makeRecoveryMessage. k2_go. Qed.
 Hint Resolve h_makeRecoveryMessage : kpdb.
 Lemma h_sendRecoveryMessage : k2 sendRecoveryMessage. Proof. unfold sendRecoveryMessage. k2_go. Qed.
@@ -125,11 +132,6 @@ Hint Resolve h_sendRecoveryMessage h_processMissingTx : kpdb.
 Lemma h_sendRecoveryRequest : k2 sendRecoveryRequest. Proof. unfold sendRecoveryRequest. k2_go. Qed.
 Lemma h_makeChangeView ts r : k2 (makeChangeView ts r). Proof. unfold makeChangeView. k2_go. Qed.
 Hint Resolve h_sendRecoveryRequest h_makeChangeView : kpdb.
-Lemma h_makePreCommit : k2 makePreCommit. Proof. unfold makePreCommit. k2_go. Qed.
-Hint Resolve h_makePreCommit : kpdb.
-Lemma h_sendPreCommit : k2 sendPreCommit. Proof. unfold sendPreCommit. k2_go. Qed.
-Lemma h_verifyPreCommits : k2 verifyPreCommitPayloadsAgainstPreBlock. Proof. unfold verifyPreCommitPayloadsAgainstPreBlock. k2_go. Qed.
-Hint Resolve h_sendPreCommit h_verifyPreCommits : kpdb.
 Lemma h_extendTimer c : k2 (extendTimer cfg c). Proof. unfold extendTimer. k2_go. Qed.
 Hint Resolve h_extendTimer : kpdb.
 Lemma h_GetPrimaryIndex s v : k2 (GetPrimaryIndex s v). Proof. unfold GetPrimaryIndex. k2_go. Qed.
@@ -181,12 +183,12 @@ Lemma inv2_store s l i msg : Inv2 s -> slot (PreparationPayloads s) (PrimaryInde
   p_body msg = B0 (BPrepareRequest (Timestamp s) (Nonce s) (TransactionHashes s)) -> p_view msg = ViewNumber s ->
   Inv2 (s <| PreparationPayloads := l |>).
 Proof.
-  intros [J1 J0 J2 J3 J4 J6 J5] Hn Hl Hi Hb Hv.
+  intros [J1 J0 J2 J3 J4 J6 J5 J7 J8] Hn Hl Hi Hb Hv.
   assert (Hs : forall r, slot l (PrimaryIndex s) = Some r -> r = msg).
   { intros r Hr. destruct (Z.eq_dec i (PrimaryIndex s)) as [E|Hne].
     - subst i. rewrite (slot_set_same _ _ _ _ Hl Hi) in Hr. congruence.
     - rewrite (slot_set_other _ _ _ _ _ Hl Hi Hne), Hn in Hr. discriminate Hr. }
-  constructor; unfold N, primary_of, N in *; cbn [header Timestamp Nonce TransactionHashes PreparationPayloads PrimaryIndex Validators BlockIndex ViewNumber PrevHash set] in *.
+  constructor; unfold N, primary_of, N in *; cbn [header preheader Timestamp Nonce TransactionHashes PreparationPayloads PrimaryIndex Validators BlockIndex ViewNumber PrevHash set] in *.
   - intros b Hb'. destruct (J2 b Hb') as [r Hr]. rewrite Hn in Hr. discriminate Hr.
   - intros b Hb'. destruct (J2 b Hb') as [r Hr]. rewrite Hn in Hr. discriminate Hr.
   - intros b Hb'. destruct (J2 b Hb') as [r Hr]. rewrite Hn in Hr. discriminate Hr.
@@ -194,12 +196,14 @@ Proof.
   - intros r ts n hs Hr Hrb. rewrite (Hs r Hr), Hb in Hrb. injection Hrb as <- <- <-. auto.
   - intros r Hr. rewrite (Hs r Hr). exact Hv.
   - exact J5.
+  - intros b Hb'. destruct (J8 b Hb') as [r Hr]. rewrite Hn in Hr. discriminate Hr.
+  - intros b Hb'. destruct (J8 b Hb') as [r Hr]. rewrite Hn in Hr. discriminate Hr.
 Qed.
 Lemma inv2_store_other s l i v : Inv2 s -> set_chk (PreparationPayloads s) (Z.to_nat i) v = Some l -> 0 <= i -> i <> PrimaryIndex s ->
   Inv2 (s <| PreparationPayloads := l |>).
 Proof.
-  intros [J1 J0 J2 J3 J4 J6 J5] Hl Hi Hne.
-  constructor; unfold N, primary_of, N in *; cbn [header Timestamp Nonce TransactionHashes PreparationPayloads PrimaryIndex Validators BlockIndex ViewNumber PrevHash set] in *;
+  intros [J1 J0 J2 J3 J4 J6 J5 J7 J8] Hl Hi Hne.
+  constructor; unfold N, primary_of, N in *; cbn [header preheader Timestamp Nonce TransactionHashes PreparationPayloads PrimaryIndex Validators BlockIndex ViewNumber PrevHash set] in *;
     rewrite ?(slot_set_other _ _ _ _ _ Hl Hi Hne); assumption.
 Qed.
 Lemma N_pos s : (N s =? 0) = false -> 0 < N s.
@@ -208,8 +212,8 @@ Proof. intros H. apply Z.eqb_neq in H. unfold N in *. pose proof (zlen_nonneg (V
 Section Manual2.
 Variable cfg : config.
 Hint Resolve h_WatchOnly h_RSOR h_own_slot h_ResponseSent h_PreCommitSent h_CommitSent h_ViewChanging h_NotAccepting h_subscribe h_unsubscribe
-  h_StopTxFlow h_changeTimer h_getTimestamp h_MakePreHeader h_CreatePreBlock h_broadcast h_rtt h_makeRecoveryMessage h_sendRecoveryMessage
-  h_processMissingTx h_sendRecoveryRequest h_makeChangeView h_makePreCommit h_sendPreCommit h_verifyPreCommits h_extendTimer h_GetPrimaryIndex
+  h_StopTxFlow h_changeTimer h_getTimestamp h_broadcast h_rtt h_makeRecoveryMessage h_sendRecoveryMessage
+  h_processMissingTx h_sendRecoveryRequest h_makeChangeView h_extendTimer h_GetPrimaryIndex
   h_onRecoveryRequest h_cache_addMessage h_ask_recv
   q_WatchOnly q_StopTxFlow q_changeTimer q_subscribe q_getTimestamp q_own_slot q_PreCommitSent q_CommitSent q_ViewChanging q_Fill q_extendTimer
   r_unsubscribe r_processMissingTx : kpdb.
@@ -307,6 +311,69 @@ Lemma h_sendCommit : k2 (sendCommit cfg). Proof. unfold sendCommit. k2_go. Qed.
 Lemma h_verifyCommits : k2 (verifyCommitPayloadsAgainstHeader cfg). Proof. unfold verifyCommitPayloadsAgainstHeader. k2_go. Qed.
 Hint Resolve h_sendCommit h_verifyCommits : kpdb.
 
+(* ---- the pre-block (anti-MEV): the same for the pre-header ---- *)
+Lemma PG2_of_inv s pb h : Inv2 s -> preheader s = Some pb -> h = preblock_hash pb -> PreHdrIsProposal s h.
+Proof.
+  intros HI Hh ->. destruct (i_p2 _ HI pb Hh) as [r Hr]. destruct (req_body r (i_k4 _ HI r Hr)) as (ts & n & hs & Hb).
+  destruct (i_rc _ HI r ts n hs Hr Hb) as (-> & -> & ->). destruct (i_p1 _ HI pb Hh) as (E1 & E2 & E3 & E4 & E5).
+  exists pb, r. rewrite E1, E2, E3. pose proof (i_who _ HI r Hr). auto 10.
+Qed.
+Lemma pmh_spec s0 : Inv2 s0 ->
+  hx s0 MakePreHeader (fun r s tr => Inv2 s /\ trG G2 tr /\ Fr s0 s /\ (forall b, r = Some b -> preheader s = Some b) /\
+                                     PreCommitPayloads s = PreCommitPayloads s0).
+Proof.
+  intros H0. unfold MakePreHeader. apply x_get. destruct (preheader s0) as [b0|] eqn:Eh.
+  { apply x_ret. split; [exact H0|split; [apply trG_nil|split; [apply Fr_refl|split; [intros b [= <-]; exact Eh|reflexivity]]]]. }
+  unfold RequestSentOrReceived. apply x_assoc. apply x_get. apply x_assoc. apply x_tget. intros x Hi Hx. apply x_ret_bind.
+  destruct (negb (isSome x)) eqn:Er. { apply x_ret. split; [exact H0|split; [apply trG_nil|split; [apply Fr_refl|split; [discriminate|reflexivity]]]]. }
+  apply x_ask. intros ok c Hc. apply sel_NewPreBlock in Hc. subst c. destruct ok.
+  - apply x_modify. apply x_ret. split; [|split; [trs2|split; [repeat split|split; [intros b [= <-]; reflexivity|reflexivity]]]].
+    destruct H0 as [J1 J0 J2 J3 J4 J6 J5 J7 J8]. constructor; unfold N, primary_of in *; cbn in *; try assumption.
+    + intros b [= <-]. cbn. auto 10.
+    + intros b _. destruct x as [r|]; [|discriminate Er]. exists r. apply (slot_nth _ _ _ Hi Hx).
+  - apply x_ret. split; [exact H0|split; [trs2|split; [apply Fr_refl|split; [discriminate|reflexivity]]]].
+Qed.
+Lemma h_MakePreHeader : k2 MakePreHeader.
+Proof. apply k2_of_spec. intros s0 H0. eapply x_conseq; [apply (pmh_spec s0 H0)|]. cbn. intros r s n (A & B & C & _). auto. Qed.
+Hint Resolve h_MakePreHeader : kpdb.
+Lemma pcb_spec s0 : Inv2 s0 ->
+  hx s0 CreatePreBlock (fun r s tr => Inv2 s /\ trG G2 tr /\ Fr s0 s /\ (forall b, r = Some b -> preheader s = Some b) /\
+                                      PreCommitPayloads s = PreCommitPayloads s0).
+Proof.
+  intros H0. unfold CreatePreBlock. apply x_get. destruct (preblock_set s0).
+  { apply x_ret. split; [exact H0|split; [apply trG_nil|split; [apply Fr_refl|split; [intros b Hb; exact Hb|reflexivity]]]]. }
+  eapply x_call; [apply (pmh_spec s0 H0)|]. intros hb s1 n1 (I1 & T1 & F1 & Hh & C1). cbn beta. destruct hb as [b|].
+  - apply x_get. cbv zeta. apply x_modify. apply x_ret. split; [|split; [trs2|split; [exact F1|split; [intros b' [= <-]; reflexivity|exact C1]]]].
+    specialize (Hh b eq_refl). destruct I1 as [J1 J0 J2 J3 J4 J6 J5 J7 J8]. constructor; unfold N, primary_of in *; cbn in *; try assumption.
+    + intros b' [= <-]. cbn. apply (J7 b Hh).
+    + intros b' _. apply (J8 b Hh).
+  - apply x_ret. split; [exact I1|split; [trs2|split; [exact F1|split; [discriminate|exact C1]]]].
+Qed.
+Lemma h_CreatePreBlock : k2 CreatePreBlock.
+Proof. apply k2_of_spec. intros s0 H0. eapply x_conseq; [apply (pcb_spec s0 H0)|]. cbn. intros r s n (A & B & C & _). auto. Qed.
+Hint Resolve h_CreatePreBlock : kpdb.
+(* the only request for pre-commit data: for the hash of the node's pre-header, while the node's own PreCommit slot is empty *)
+Lemma h_makePreCommit : k2 makePreCommit.
+Proof.
+  apply k2_of_spec. intros s0 H0. unfold makePreCommit. apply x_get. apply x_tget. intros own Hi Hown.
+  destruct own as [m|]; [apply x_ret; split; [exact H0|split; [apply trG_nil|apply Fr_refl]]|].
+  eapply x_call; [apply (pcb_spec s0 H0)|]. intros hb s1 n1 (I1 & T1 & F1 & Hh & C1). cbn beta. destruct hb as [b|]; [|apply x_ret; split; [exact I1|split; [trs2|exact F1]]].
+  specialize (Hh b eq_refl).
+  unfold ask_unit. apply x_ask. intros [] c Hc.
+  assert (Gc : G2 s1 c).
+  { destruct c; try discriminate Hc. cbn. destruct (hash_eqb bh (preblock_hash b)) eqn:E; [|discriminate Hc]. apply hash_eqb_eq in E.
+    split; [apply (PG2_of_inv s1 b _ I1 Hh E)|]. destruct F1 as (F1a & _). rewrite C1, F1a. apply (slot_nth _ _ _ Hi Hown). }
+  apply x_get. cbv zeta. apply x_modify. apply x_ret.
+  split; [|split; [trs2|exact F1]].
+  destruct I1 as [J1 J0 J2 J3 J4 J6 J5 J7 J8]. constructor; unfold N, primary_of in *; cbn in *; try assumption.
+  - intros b' [= <-]. cbn. apply (J7 b Hh).
+  - intros b' _. apply (J8 b Hh).
+Qed.
+Hint Resolve h_makePreCommit : kpdb.
+Lemma h_sendPreCommit : k2 sendPreCommit. Proof. unfold sendPreCommit. k2_go. Qed.
+Lemma h_verifyPreCommits : k2 verifyPreCommitPayloadsAgainstPreBlock. Proof. unfold verifyPreCommitPayloadsAgainstPreBlock. k2_go. Qed.
+Hint Resolve h_sendPreCommit h_verifyPreCommits : kpdb.
+
 Lemma h_checkCommit : k2 (checkCommit cfg).
 Proof.
   apply k2_of_spec. intros s0 H0. unfold checkCommit. apply x_get.
@@ -324,7 +391,24 @@ Proof.
   split; [|split; [exact TG|exact F1]]. apply (inv2_same s1); [unfold Same2; cbn; repeat split; reflexivity|exact I1].
 Qed.
 Hint Resolve h_checkCommit : kpdb.
-Lemma h_checkPreCommit : k2 (checkPreCommit cfg). Proof. unfold checkPreCommit. k2_go. Qed.
+Lemma h_checkPreCommit : k2 (checkPreCommit cfg).
+Proof.
+  apply k2_of_spec. intros s0 H0. unfold checkPreCommit. apply x_get.
+  destruct (negb _); [apply x_ret; split; [exact H0|split; [apply trG_nil|apply Fr_refl]]|]. cbv zeta.
+  destruct (_ <? _); [apply x_ret; split; [exact H0|split; [apply trG_nil|apply Fr_refl]]|].
+  eapply x_call; [apply (pcb_spec s0 H0)|]. intros ob s1 n1 (I1 & T1 & F1 & Hh & _). cbn beta. destruct ob as [pb|]; [|apply x_ret; split; [exact I1|split; [trs2|exact F1]]].
+  specialize (Hh pb eq_refl). apply x_get.
+  eapply x_call with (Qx := fun _ s tr => Inv2 s /\ trG G2 tr /\ Fr s1 s).
+  { destruct (negb (preBlockProcessed s1)); [|apply x_ret; split; [exact I1|split; [apply trG_nil|apply Fr_refl]]].
+    apply x_ask. intros err c Hc.
+    assert (Gc : G2 s1 c).
+    { destruct c; try discriminate Hc. destruct (hash_eqb bh (preblock_hash pb)) eqn:E; [|discriminate Hc]. apply hash_eqb_eq in E. eapply PG2_of_inv; eauto. }
+    destruct err; [apply x_ret; split; [exact I1|split; [trs2|apply Fr_refl]]|].
+    apply x_modify. apply x_ret. split; [apply (inv2_same s1); [unfold Same2; cbn; repeat split; reflexivity|exact I1]|split; [trs2|repeat split]]. }
+  intros cont s2 n2 (I2 & T2 & F2). cbn beta.
+  match goal with |- hx _ ?prog _ => assert (Hrest : k2 prog) by (destruct cont; k2_go) end.
+  apply (x_k2_last s2 _ _ Hrest I2). intros [] s3 n3 I3 F3 T3. split; [exact I3|split; [trs2|eapply Fr_trans; [eapply Fr_trans; eassumption|exact F3]]].
+Qed.
 Hint Resolve h_checkPreCommit : kpdb.
 Lemma h_checkPrepare : k2 (checkPrepare cfg). Proof. unfold checkPrepare. k2_go. Qed.
 Lemma h_onCommit m : k2 (onCommit cfg m). Proof. unfold onCommit. k2_go. Qed.
@@ -359,9 +443,22 @@ Qed.
 (* ... and, run while the primary's slot is empty, keeps it empty together with the proposal fields: no header can be built *)
 Lemma r_RSOR : k5 RequestSentOrReceived. Proof. unfold RequestSentOrReceived. k5_go. Qed.
 Hint Resolve r_RSOR : kpdb.
-Lemma r_MakePreHeader : k5 MakePreHeader. Proof. unfold MakePreHeader. k5_go. Qed.
+Lemma r_mph_spec mi pi vn ts n hs s0 : Inv5 mi pi vn ts n hs s0 ->
+  hx s0 MakePreHeader (fun r s tr => Inv5 mi pi vn ts n hs s /\ trG G2 tr /\ r = None).
+Proof.
+  intros H5. pose proof H5 as ((HI & E1 & E2 & E0 & E3) & F). unfold MakePreHeader. apply x_get.
+  destruct (preheader s0) as [b|] eqn:Eh. { exfalso. destruct (i_p2 _ HI b Eh) as [r Hr]. rewrite E3 in Hr. discriminate Hr. }
+  unfold RequestSentOrReceived. apply x_assoc. apply x_get. apply x_assoc. apply x_tget. intros x Hi Hx. apply x_ret_bind.
+  pose proof (slot_nth _ _ _ Hi Hx) as Hs. rewrite E3 in Hs. subst x. cbn [isSome negb]. apply x_ret. split; [exact H5|split; [apply trG_nil|reflexivity]].
+Qed.
+Lemma r_MakePreHeader : k5 MakePreHeader.
+Proof. intros mi pi vn ts n hs s0 H5. eapply x_conseq; [apply (r_mph_spec _ _ _ _ _ _ s0 H5)|]. cbn. intros r s tr (A & B & _). auto. Qed.
 Hint Resolve r_MakePreHeader : kpdb.
-Lemma r_CreatePreBlock : k5 CreatePreBlock. Proof. unfold CreatePreBlock. k5_go. Qed.
+Lemma r_CreatePreBlock : k5 CreatePreBlock.
+Proof.
+  intros mi pi vn ts n hs s0 H5. unfold CreatePreBlock. apply x_get. destruct (preblock_set s0); [apply x_ret; split; [exact H5|apply trG_nil]|].
+  eapply x_call; [apply (r_mph_spec _ _ _ _ _ _ s0 H5)|]. intros hb s1 n1 (I1 & T1 & ->). cbn beta. apply x_ret. split; [exact I1|rewrite app_nil_r; exact T1].
+Qed.
 Hint Resolve r_CreatePreBlock : kpdb.
 Lemma r_verifyPreCommits : k5 verifyPreCommitPayloadsAgainstPreBlock. Proof. unfold verifyPreCommitPayloadsAgainstPreBlock. k5_go. Qed.
 Lemma r_MakeHeader : k5 (MakeHeader cfg).
@@ -488,11 +585,11 @@ Proof.
   unfold RequestSentOrReceived. apply x_get. apply x_tget. intros x Hi Hx. apply x_ret. split; [reflexivity|split; [reflexivity|]].
   intros E. rewrite (slot_nth _ _ _ Hi Hx). destruct x; [discriminate E|reflexivity].
 Qed.
-Lemma inv2_fresh s : header s = None -> (exists n, PreparationPayloads s = empty_tbl n) ->
+Lemma inv2_fresh s : header s = None -> preheader s = None -> (exists n, PreparationPayloads s = empty_tbl n) ->
   (0 < N s -> PrimaryIndex s = primary_of s (ViewNumber s)) -> Inv2 s /\ slot (PreparationPayloads s) (PrimaryIndex s) = None.
 Proof.
-  intros Hh [n Hp] Hpf. assert (Hs : slot (PreparationPayloads s) (PrimaryIndex s) = None) by (rewrite Hp; apply slot_empty).
-  split; [|exact Hs]. constructor; rewrite ?Hh, ?Hs; try discriminate. exact Hpf.
+  intros Hh Hph [n Hp] Hpf. assert (Hs : slot (PreparationPayloads s) (PrimaryIndex s) = None) by (rewrite Hp; apply slot_empty).
+  split; [|exact Hs]. constructor; rewrite ?Hh, ?Hph, ?Hs; try discriminate. exact Hpf.
 Qed.
 Ltac g2sel := match goal with H : _ = Some _ |- G2 _ ?c => destruct c; try exact I; discriminate H end.
 Ltac trs3 := rewrite ?app_nil_r; repeat first [ assumption | apply trG_nil | apply trG_app | apply trG_cons; [first [assumption|exact I|g2sel]|] ].
@@ -640,7 +737,7 @@ Proof.
     - apply x_get. eapply x_call; [apply (keep_changeviews_spec (fun _ => True))|]. intros l s1 n1 (-> & -> & _). apply x_modify_last. reflexivity. }
   intros [] s1 n1 C1. cbn beta. unfold GetPrimaryIndex. xs.
   all: match goal with |- _ /\ _ /\ _ => idtac end.
-  all: rewrite <- and_assoc; split; [apply inv2_fresh; [reflexivity|eexists; reflexivity|intros _; unfold primary_of, N; cbn; reflexivity]|cbn; exact C1].
+  all: rewrite <- and_assoc; split; [apply inv2_fresh; [reflexivity|reflexivity|eexists; reflexivity|intros _; unfold primary_of, N; cbn; reflexivity]|cbn; exact C1].
 Qed.
 Lemma reset_spec view ts s0 : hx s0 (reset cfg view ts)
   (fun _ s tr => Inv2 s /\ trG G2 tr /\ slot (PreparationPayloads s) (PrimaryIndex s) = None /\ cache s = cache s0).
@@ -755,6 +852,21 @@ Qed.
 Corollary signature_only_for_the_proposal_while_uncommitted st ev sc st' tr s h :
   Reach cfg st -> step cfg st ev sc = Ok (st', tr) -> In (s, CSign h) tr ->
   HdrIsProposal s h /\ slot (CommitPayloads s) (MyIndex s) = None.
+Proof.
+  intros HR Hs Hin. pose proof (proposal_history _ _ _ _ _ HR Hs) as HT.
+  unfold trG in HT. rewrite Forall_forall in HT. exact (HT _ Hin).
+Qed.
+(* anti-MEV: the pre-block handed over is the node's pre-header = the proposal of its view; pre-commit data is requested only for
+   it and only while the node's own PreCommit slot is empty *)
+Corollary accepted_preblock_is_the_primary_proposal st ev sc st' tr s h e :
+  Reach cfg st -> step cfg st ev sc = Ok (st', tr) -> In (s, CProcessPreBlock h e) tr -> PreHdrIsProposal s h.
+Proof.
+  intros HR Hs Hin. pose proof (proposal_history _ _ _ _ _ HR Hs) as HT.
+  unfold trG in HT. rewrite Forall_forall in HT. exact (HT _ Hin).
+Qed.
+Corollary precommit_data_only_for_the_proposal_while_no_own_precommit st ev sc st' tr s h :
+  Reach cfg st -> step cfg st ev sc = Ok (st', tr) -> In (s, CSetData h) tr ->
+  PreHdrIsProposal s h /\ slot (PreCommitPayloads s) (MyIndex s) = None.
 Proof.
   intros HR Hs Hin. pose proof (proposal_history _ _ _ _ _ HR Hs) as HT.
   unfold trG in HT. rewrite Forall_forall in HT. exact (HT _ Hin).
